@@ -23,7 +23,7 @@ theorem Core.sameData {s s' : State} {r : Id} {up : List Id} {ph : Phase} (h : C
   have e4 : s'.formElem = s.formElem := by rw [hr]
   have e5 : s'.headElem = s.headElem := by rw [hr]
   refine ⟨hl, by rw [e1]; exact h.stack, hk0, by rw [e1]; exact h.nodup, ?_, ?_, ?_, by rw [e3]; exact h.tmm, ?_,
-    hrtu, hrnd, ?_, ?_, ?_⟩
+    hrtu, hrnd, ?_, ?_, ?_, ?_⟩
   · rw [e1]; exact h.tg.congr (fun x _ => hnm x)
   · intro x t hx
     rw [e2] at hx
@@ -60,6 +60,7 @@ theorem Core.sameData {s s' : State} {r : Id} {up : List Id} {ph : Phase} (h : C
       exact ⟨hh, ex, a, by rw [helems]; exact b', by rw [hnm]; exact c, by rw [hnm]; exact d,
         fun x hx => by rw [hnm]; exact e x hx⟩
   · intro y hy; rw [hnm]; exact h.bh y hy
+  · rw [e2]; exact h.afx.congr helems (fun x _ => hnm x) (fun y t hy => ⟨y, hy⟩)
 
 theorem FitsM.sameData {s s' : State} {up : List Id} {ph : Phase} (hf : FitsM s up ph) (hdo : DomOnly s s')
     (hdata : ∀ x, s'.dom.dataOf x = s.dom.dataOf x) : FitsM s' up ph := by
